@@ -65,6 +65,9 @@ def body(ck, F, cfg):
     from .common import hidden_effects_rule
 
     hidden_effects_rule(ck, F, "R06.8")
+    from . import C16 as _C16
+
+    _C16.wrapper_challenge_rule(ck, F, "R06.9")  # randomized-phase challenges are squeezed from the main transcript, every time
     ref = SC.reference_schedule()
     col_v, col_p = [], []
     rv, parts_v = SC.verifier_schedule(F, col_v)
